@@ -155,6 +155,7 @@ func (vc *FuncVC) enterLoopHeader(st *State, fr *Frame, from, to *ssa.BasicBlock
 	vc.enterBlock(st, fr, from, to)
 	sc := vc.newScope(st, vc.baseVars(st))
 	if spec != nil {
+		vc.safeExec(sc, spec.Init, lname+"/init")
 		for _, c := range spec.Inv {
 			if !vc.inProp(c.Tags) {
 				continue
@@ -349,6 +350,7 @@ func phiKey(phi *ssa.Phi) string {
 type heapWrite struct {
 	heap, sort string
 	ref        ssa.Value // non-nil: only this object (defined outside the loop)
+	viaField   *ssa.FieldAddr // the object is the value of this field (loaded inside the loop, field not written in the loop)
 	slice      bool      // ref is a slice value: havoc Elems[sarr(ref)]
 	whole      bool
 	freshOnly  bool // writes only touch objects allocated inside the loop
@@ -382,6 +384,8 @@ func (vc *FuncVC) loopWrites(st *State, fr *Frame, lp *loop) *loopWriteSet {
 			dn, dso, vn, vso := mapHeaps(w, mt)
 			if top && definedOutside(x.Map, lp) {
 				ws.writes = append(ws.writes, heapWrite{heap: dn, sort: dso, ref: x.Map}, heapWrite{heap: vn, sort: vso, ref: x.Map})
+			} else if fa := stableFieldLoad(x.Map, lp); top && fa != nil {
+				ws.writes = append(ws.writes, heapWrite{heap: dn, sort: dso, viaField: fa}, heapWrite{heap: vn, sort: vso, viaField: fa})
 			} else {
 				addWhole(dn, dso)
 				addWhole(vn, vso)
@@ -508,6 +512,30 @@ func (vc *FuncVC) loopWrites(st *State, fr *Frame, lp *loop) *loopWriteSet {
 		}
 	}
 	scanFn(fr.fn, lp.blocks, true)
+	for i := range ws.writes {
+		hw := &ws.writes[i]
+		if hw.viaField == nil {
+			continue
+		}
+		pt := hw.viaField.X.Type().Underlying().(*types.Pointer).Elem()
+		nt, ok := pt.(*types.Named)
+		stable := ok && isObjectStruct(pt)
+		if stable {
+			fh := fieldHeapName(nt, nt.Underlying().(*types.Struct).Field(hw.viaField.Field))
+			for _, o := range ws.writes {
+				if o.heap == fh {
+					stable = false
+				}
+			}
+			if ws.user && fh == "H_SharedStore_data" {
+				stable = false
+			}
+		}
+		if !stable {
+			hw.viaField = nil
+			hw.whole = true
+		}
+	}
 	if isTop && vc.contract != nil {
 		if spec := vc.contract.Loops[lp.ord]; spec != nil {
 			for _, s := range spec.Steps {
@@ -516,6 +544,19 @@ func (vc *FuncVC) loopWrites(st *State, fr *Frame, lp *loop) *loopWriteSet {
 		}
 	}
 	return ws
+}
+
+// stableFieldLoad: v is *(&base.f) with base defined outside the loop.
+func stableFieldLoad(v ssa.Value, lp *loop) *ssa.FieldAddr {
+	u, ok := v.(*ssa.UnOp)
+	if !ok {
+		return nil
+	}
+	fa, ok := u.X.(*ssa.FieldAddr)
+	if !ok || !definedOutside(fa.X, lp) {
+		return nil
+	}
+	return fa
 }
 
 func lhsName(e Expr) string {
@@ -734,6 +775,23 @@ func (vc *FuncVC) applyLoopHavoc(st *State, fr *Frame, lp *loop, ws *loopWriteSe
 	}
 	for _, hw := range ws.writes {
 		if done[hw.heap] || hw.whole {
+			continue
+		}
+		if hw.viaField != nil {
+			base, ok := vc.val(st, fr, hw.viaField.X).(V)
+			if !ok {
+				done[hw.heap] = true
+				st.heapHavoc(hw.heap, hw.sort)
+				continue
+			}
+			pt := hw.viaField.X.Type().Underlying().(*types.Pointer).Elem()
+			nt := pt.(*types.Named)
+			f := nt.Underlying().(*types.Struct).Field(hw.viaField.Field)
+			fs := vc.w.sortOf(f.Type())
+			ref := sel(st.heapGet(fieldHeapName(nt, f), arraySort(SInt, fs)), base.T)
+			_, inner := splitArraySort(hw.sort)
+			cur := st.heapGet(hw.heap, hw.sort)
+			st.heapSet(hw.heap, hw.sort, sto(cur, ref, st.fresh("hv", inner)))
 			continue
 		}
 		if hw.ref != nil {
